@@ -258,6 +258,49 @@ func thorough(spec *PropSpec, w *World, r *Report, verif string, extra map[strin
 	}
 	extra["variants"] = map[string]any{"applied": len(mine), "outcomes": counts, "results": results}
 	selfTestFailures = failed
+	altConfig(self, spec, w, r, base, extra)
+}
+
+// altConfig re-evaluates the property's rules on the same tree loaded under
+// GOARCH=386 (32-bit int / PathIndex, other build-tagged files). Obligations
+// that are not discharged there and were discharged under the default
+// configuration are violations of the property on that platform and are
+// reported as such (key suffixed with the configuration).
+func altConfig(self string, spec *PropSpec, w *World, r *Report, base map[string]bool, extra map[string]any) {
+	if os.Getenv("JDLINT_GOARCH") != "" {
+		return
+	}
+	cmd := exec.Command(self, "-property", spec.ID, "-root", w.Root, "-json")
+	cmd.Env = append(os.Environ(), "JDLINT_GOARCH=386")
+	out, err := cmd.Output()
+	info := map[string]any{"config": "GOOS=linux GOARCH=386"}
+	extra["alt_config"] = info
+	if err != nil {
+		r.Unk("R-UNDECIDED", "alt-config:GOARCH=386", "-", "the rules could not be evaluated under GOARCH=386: "+firstLine(strings.TrimSpace(string(out))))
+		return
+	}
+	var parsed struct {
+		Obligations int  `json:"obligations"`
+		Bad         []Ob `json:"bad"`
+	}
+	lines := strings.Split(strings.TrimSpace(string(out)), "\n")
+	if err := json.Unmarshal([]byte(lines[len(lines)-1]), &parsed); err != nil {
+		r.Unk("R-UNDECIDED", "alt-config:GOARCH=386", "-", "unparsable analyser output under GOARCH=386: "+firstLine(string(out)))
+		return
+	}
+	info["obligations"] = parsed.Obligations
+	fresh := 0
+	for _, o := range parsed.Bad {
+		if base[o.Rule+"\x00"+o.Key] {
+			continue
+		}
+		fresh++
+		r.add(o.Rule, o.Key+"@GOARCH=386", o.Pos, o.Status, "under GOARCH=386: "+o.Why, nil)
+	}
+	info["not_discharged_only_there"] = fresh
+	if fresh == 0 {
+		r.Ok("R-ALTCONFIG", "GOARCH=386", "-", fmt.Sprintf("the %d obligations evaluated under GOARCH=386 have the same verdicts as under the default configuration", parsed.Obligations))
+	}
 }
 
 // selfTestFailures is inspected by main after the verdict on the real tree:
